@@ -194,9 +194,9 @@ def audit_axioms(prop_id):
         except OSError:
             pass
     out = {}
-    for m in re.finditer(r"'([^']+)' depends on axioms: \[([^\]]*)\]", p.stdout.replace("\n", " ")):
+    for m in re.finditer(r"'(\S+)' depends on axioms: \[([^\]]*)\]", p.stdout.replace("\n", " ")):
         out[m.group(1)] = [a.strip() for a in m.group(2).split(",") if a.strip()]
-    for m in re.finditer(r"'([^']+)' does not depend on any axioms", p.stdout):
+    for m in re.finditer(r"'(\S+)' does not depend on any axioms", p.stdout):
         out[m.group(1)] = []
     missing = [n for n in names if n not in out]
     return names, out, missing, p.stdout
